@@ -228,6 +228,15 @@ C06Clauses ==
   \* ShiftTorsion is the centred x-derivative of dphidy: (f_xlow[x+1] - f_xlow[x]) / dx at cell centres
   /\ ClauseAt("ShiftTorsionIsDDX", \A x \in XS : \A y \in YS :
         Near(Obs.ddx.st_times_dx[x + 1][y + 1], Obs.ddx.f_xhi[x + 1][y + 1] - Obs.ddx.f_xlow[x + 1][y + 1], 100), "centre")
+  \* ... and at the x-faces the difference of dphidy between the two adjacent cell centres (also across the radial joins between
+  \* regions), at the inner edge of the grid twice the difference between the first centre and the face; dx at an x-face is the
+  \* psi difference between those centres: half the sum of the two cells' dx (the full dx of the first cell at the inner edge)
+  /\ ClauseAt("ShiftTorsionIsDDX", \A x \in XS : \A y \in YS :
+        IF x = 0 THEN Near(Obs.ddx.stx_times_dx[1][y + 1], 2 * (Obs.ddx.f_centre[1][y + 1] - Obs.ddx.f_xlow[1][y + 1]), 200)
+        ELSE Near(Obs.ddx.stx_times_dx[x + 1][y + 1], Obs.ddx.f_centre[x + 1][y + 1] - Obs.ddx.f_centre[x][y + 1], 200), "xlow")
+  /\ ClauseAt("DxAtFaces", \A x \in XS : \A y \in YS :
+        IF x = 0 THEN Near(Obs.ddx.dxl[1][y + 1], Obs.ddx.dxc[1][y + 1], 4)
+        ELSE Near(2 * Obs.ddx.dxl[x + 1][y + 1], Obs.ddx.dxc[x + 1][y + 1] + Obs.ddx.dxc[x][y + 1], 8), "xlow")
   \* chi is defined exactly on closed surfaces
   /\ \A loc \in {"centre", "xlow", "ylow"} :
        ClauseAt("ChiDomain", \A x \in XS : \A y \in YS : (Obs.chi_nan[loc][x + 1][y + 1] = 1) = ~OnClosed(x, y), loc)
